@@ -2,7 +2,7 @@
 NOTES = ('Solver-based checking of the real code (Kani 0.68 / CBMC 6.11 / CaDiCaL). No hooks in /repo; harness modules live in /verif/harness and are '
          'injected into a scratch copy of /repo on every run (cfg(kani) only). Quick tier = the cheap obligations whose primary property this is; thorough '
          'tier = every obligation that lists the property, plus the longer scripts. Exit 2 (time-out, out of memory, harness out of date, non-reproducing '
-         'counterexample) is inconclusive and never counted as a pass. Repaired defects and the two recorded findings are in known_findings.json; see DESIGN.md.')
+         'counterexample) is inconclusive and never counted as a pass. Repaired defects and the three recorded findings (F12, F13, F14) are in known_findings.json; see DESIGN.md (10.3 for the sender flush path, 10.8 for what made heap code tractable).')
 
 COMMON_NOTE = ('Trusted: Kani MIR->goto translation and std models, CBMC, CaDiCaL. Bounds (window size 4, script lengths, concrete shapes) are listed per '
                'obligation in the evidence file; whatever needs more operations, slots or a whole two-endpoint run is outside the claim. ')
@@ -18,27 +18,30 @@ CLAIMED = {
  'C02': {
   'text': 'Safety half decided by the solver: a Reliable packet is delivered before any later packet of its channel and the receive window never passes an undelivered Reliable packet '
           '(receiver model at the id wrap); resynchronisation stops at the first packet awaiting delivery; parent leads on the wire name the latest Reliable packet (PacketSender script at the wrap); '
-          'a packet-window resynchronisation is only offered with empty pending/resend queues (thorough: sync emission).',
-  'note': COMMON_NOTE + 'NOT decided: "eventually delivered within bounded time under a fair network" and resend-until-acknowledged (the sender flush path emit_data_frames could not be encoded, DESIGN.md 3.5).',
+          'a packet-window resynchronisation is only offered with empty pending/resend queues (sync emission from any sender state). '
+          'Recovery links on the real flush path (HalfConnection::emit_frames on a small connection, times/RTT/payload symbolic): an unacknowledged Reliable fragment is retransmitted no later than 4 RTT after its last transmission; '
+          'a due retransmission that finds no credit stays queued and goes out with the next credit; a valid acknowledgement ends retransmission, after which is_send_pending() is false and send_buffer_size() returns to zero on the window acknowledgement.',
+  'note': COMMON_NOTE + 'NOT decided: "eventually delivered within bounded time under a fair network" (the chaining of the links over an unbounded fault prefix is prose). Flush scripts: one or two 1-byte packets, <= 3 flushes, credit classes concrete.',
  },
  'C03': {
   'text': 'Every component entry point that network data reaches is executed with fully hostile arguments under Kani\'s panic/unwrap/index/overflow/unwinding checks: '
           'PacketSender::acknowledge(any u32), PacketReceiver handle_datagram/receive/resynchronize(any u32), over-limit first fragment, FrameQueue acknowledge_group shapes / '
           'advance_transfer_window(any u32) / forget_frames(any), ReorderBuffer put/advance from any valid state, RecvRateSet/LossIntervalQueue/SendRateComp with any feedback incl. RTT 0, '
-          'bisection termination, HalfConnection handle_sync_frame/handle_ack_frame with any ids; thorough adds all codec parsers on arbitrary bytes and the client/server lifecycle step. '
+          'bisection termination, HalfConnection handle_sync_frame/handle_ack_frame with any ids; a flush after an acknowledgement that is ahead of fragments never sent returns (finding F3, loop bound = claimed work); thorough adds all codec parsers on arbitrary bytes and the client/server lifecycle steps. '
           'Loop bounds are the claimed maximum work; an unwinding failure there is a violation.',
-  'note': COMMON_NOTE + 'Recorded finding F13 (hostile parent leads trip a debug assertion) is reported as KNOWN-FINDING. The sender flush path (emit_data_frames) and the socket layer are outside; sequences longer than the scripts are outside.',
+  'note': COMMON_NOTE + 'Recorded finding F13 (hostile parent leads trip a debug assertion) is reported as KNOWN-FINDING. The socket layer is outside; sequences longer than the scripts are outside.',
  },
  'C04': {
   'text': 'Reassembly on the real AssemblyWindow/FragmentBuffer: a duplicated fragment with different contents never overwrites the first copy (both fragment positions); a datagram whose header disagrees '
           'with the first fragment seen (any field values) never changes the result; the produced packet has the summed length and the genuine bytes in place; produced exactly once. '
           'Thorough adds: datagram encodings at all class thresholds never exceed 1472 bytes (codec round trips), slicing/size arithmetic for every length, dealloc layout of the reassembled buffer.',
-  'note': COMMON_NOTE + 'Two-fragment packets (1448 + small); more than 2 fragments and flush-budget cuts across flushes (sender flush path) are outside.',
+  'note': COMMON_NOTE + 'Two-fragment packets (1448 + small); more than 2 fragments are outside. Sender side (thorough): a 1449-byte packet leaves as a 1472-byte frame with fragment 0 and a second frame with the remaining byte, also when the flush credit cuts it across two flushes.',
  },
  'C05': {
   'text': 'Ideal-network composition links decided by the solver: PacketSender assigns consecutive ids in submission order with the documented leads and resend flags (two-packet scripts, all modes/channels); '
-          'PacketReceiver delivers a 3-packet in-order arrival sequence completely, once, in global order across channels for every receive() cadence; stale TimeSensitive packets are dropped by the sender without consuming ids (thorough).',
-  'note': COMMON_NOTE + 'The closed loop (acks reopening windows, pacing, bursts beyond the windows, two endpoints) is composed in prose only; wire order of one flush is outside (flush path not encodable).',
+          'PacketReceiver delivers a 3-packet in-order arrival sequence completely, once, in global order across channels for every receive() cadence; wire order of one real flush (three packets incl. a two-fragment one: datagrams leave in (packet id, fragment id) order across frame boundaries and the id wrap, no frame above 1472 bytes); '
+          'a packet whose fragment-rounded size does not fit the peer\'s remaining receive allocation is held back (so the receiver never has to discard it); stale TimeSensitive packets are dropped by the sender without consuming ids (thorough).',
+  'note': COMMON_NOTE + 'The closed loop (acks reopening windows, pacing, bursts beyond the windows, two endpoints) is composed in prose only.',
  },
  'C06': {
   'text': 'Receive allocation invariant on the real AssemblyWindow for hostile datagrams (every header field any, claimed fragment counts up to 65536): alloc = sum over slots <= max_receive_alloc rounded up, '
@@ -56,18 +59,20 @@ CLAIMED = {
  'C08': {
   'text': 'Event grammar of the client decided inductively: ONE operation (any frame of the nine types with any fields, a timer evaluation at any time, any application call) from ANY lifecycle state '
           'emits only monitor-legal events (no Receive/Disconnect before Connect, at most one terminal event, nothing after it, no second Connect) and lands in a state consistent with them. '
-          'Server side: handshake/no-reset obligations (thorough).',
-  'note': COMMON_NOTE + 'Opaque connection model (receive() delivers 0..1 packets per call). The server\'s per-address grammar is only covered through the handshake, disconnect and limit scripts, not inductively.',
+          'Server, per tracked address, inductively as well: from each lifecycle state (Pending/Active/Closing/Closed, fields and timer entry any) ONE operation - each of the nine frame types with any fields, the state\'s timer entry firing, '
+          'the active-timeout scan, step_active_clients, send/disconnect/disconnect_now, drop() - one obligation per (state, operation), 66 in all: only monitor-legal events for that address, none for other addresses, state consistent with them.',
+  'note': COMMON_NOTE + 'Opaque connection model (receive() delivers 0 or 1 packets per call, pinned per obligation on the server side). The timer loop of Server::handle_events is modelled by calling handle_event on the due entry (running a due entry through the real loop exhausts CBMC\'s memory even for concrete inputs, DESIGN.md 10.8).',
  },
  'C09': {
   'text': 'Client disconnect logic decided for all inputs: a Disconnect frame is transmitted in Flush mode only in a step where is_send_pending() answered false, at once in Now mode; received packets are drained before closing; '
           'a peer Disconnect is acknowledged, ends the connection at once and nothing is delivered after it; retry budget: Error(Timeout) only after exactly 10 resends each >= 2 s apart (>= 22 s), and every step at or past a deadline resends or terminates (12-step script, all times symbolic).',
-  'note': COMMON_NOTE + 'Opaque connection model: what is_send_pending()==false means on the real HalfConnection (queues empty) is read off the code (one line) — the flush path itself is not encodable. Server-side disconnect paths are not claimed.',
+  'note': COMMON_NOTE + 'Opaque connection model in the lifecycle obligations; what is_send_pending() means on the real HalfConnection is decided on the real flush path: true while a Persistent/Reliable fragment is unacknowledged or unsent - including a due retransmission that found no credit - and false once every fragment is acknowledged. Server-side disconnect paths are covered by the server event grammar (C08) only.',
  },
  'C10': {
   'text': 'Client active timeout both ways for any handshake duration and any frame/timer times (Timeout implies >= active_timeout_ms of silence; that much silence implies Timeout in this step); '
-          'handshake retry budget (12-step script, all times symbolic); keepalive emission on the real HalfConnection::emit_sync_frame from any sender state (sync frame written and idle timer restarted once idle >= max(RTO, interval, 10 s) with credit).',
-  'note': COMMON_NOTE + 'Handlers driven directly with now_ms as a parameter (the order of calls inside step() is not covered); "never times out while keepalives flow" is a composition argument; server-side timers not claimed.',
+          'handshake retry budget (12-step script, all times symbolic); keepalive emission on the real HalfConnection::emit_sync_frame from any sender state (sync frame written and idle timer restarted once idle >= max(RTO, interval, 10 s) with credit).'
+          ' The real Client::step() with a frame waiting in the socket and the clock at or past the deadline: the frame is read first and restarts the timeout (no Timeout is reported).',
+  'note': COMMON_NOTE + 'Handlers driven directly with now_ms as a parameter, except in the real-step obligation (clock behind now_ms() = a value set by the obligation); "never times out while keepalives flow" is a composition argument; server-side timers are covered by the per-state obligations of C08/C17/C18 only (a real Server::step() did not fit).',
  },
  'C11': {
   'text': 'Recovery LINKS only (necessary conditions), each decided for all inputs: sync frame requests (frame/packet ids) are emitted when frames/packets are outstanding and the line is idle; the receiver resynchronises both windows for ids within one window and ignores the rest; '
@@ -75,14 +80,16 @@ CLAIMED = {
   'note': COMMON_NOTE + 'The liveness property itself (no permanent stall, not pinned at minimum rate) is NOT decided: chaining of the links over an unbounded fault sequence is prose (DESIGN.md section 5, C11).',
  },
  'C12': {
-  'text': 'Sender-queue level: resend flag exactly for Persistent/Reliable; a TimeSensitive packet queued under an earlier flush id is never handed out, for any queue position / flush ids, single- and multi-fragment. '
-          'Thorough adds: an acknowledged frame marks exactly its fragments (what stops retransmission) and PacketSender::acknowledge releases packets the receiver moved past, across the id wrap.',
-  'note': COMMON_NOTE + 'Per-fragment transmission counts on the wire (at most once / until acknowledged) need the flush path (emit_data_frames), which could not be encoded: outside the claim, as is finding F14 (DESIGN.md section 7).',
+  'text': 'On the real flush path (HalfConnection::emit_frames on a small connection; times, RTT, RTO, payload, nonce, CRC symbolic; frames decoded from the bytes handed to the sink): a fragment of an Unreliable or TimeSensitive packet is transmitted at most once; '
+          'a Persistent/Reliable fragment is retransmitted (no later than 4 RTT after the last transmission) until its frame is acknowledged with the right nonce and never after that - also when the acknowledged frame carried a packet that no longer exists - '
+          'and a Persistent packet not after the receiver reported moving past it; a packet cut by the flush credit continues with its next fragment and repeats none; a TimeSensitive packet not begun before step() is never transmitted. '
+          'Sender-queue level: resend flag exactly for Persistent/Reliable; stale TimeSensitive discard for any queue position / flush ids, single- and multi-fragment.',
+  'note': COMMON_NOTE + 'Flush scripts of one or two 1-byte (or one 1449-byte) packets and <= 3 flushes; the credit class (ample / 100 bytes / negative), the mode and which acknowledgement arrives are concrete per obligation. Finding F14 (a credit-less flush pulls a TimeSensitive packet out of reach of the staleness test) is reported as KNOWN-FINDING.',
  },
  'C13': {
   'text': 'Per-step facts decided by the solver: nothing is transmitted on negative credit and every transmitted byte is debited (ack and sync emitters, all credit values); no frame exceeds 1472 bytes; '
           'X <= ceiling after every rate update (feedback on an RTT grid, no-feedback expiry fully symbolic); the ceiling handed to the connection is min(local max_send_rate, peer max_receive_rate) on both endpoints (thorough).',
-  'note': COMMON_NOTE + 'The interval inequality (telescoping over steps), fill_flush_alloc\'s float arithmetic and the data emitter path are NOT decided by the solver.',
+  'note': COMMON_NOTE + 'The interval inequality (telescoping over steps) and fill_flush_alloc\'s float arithmetic are NOT decided by the solver. Data emitter path (thorough): every byte of every data frame is debited, nothing leaves on negative credit, one flush overdraws the credit by less than one frame.',
  },
  'C14': {
   'text': 'One call of SendRateComp::step from any state with MIN <= X <= ceiling: no-feedback expiry fully symbolic (keeps or halves, never below s/64, never above the ceiling, never increases; slow start and equation phase), '
@@ -93,7 +100,7 @@ CLAIMED = {
  'C15': {
   'text': 'FrameQueue::acknowledge_group on a 2-frame log, per bitfield shape with nonces/sizes/times symbolic: a group covering unknown ids or with the wrong nonce parity changes nothing observable (acked flags, fragment flags, feedback, reorder/loss state); '
           'a genuine group acknowledges exactly the claimed frames; a replayed group changes nothing and produces no sample; in an overlapping group only newly acknowledged frames contribute to the RTT / receive-rate sample; receiver-side group bookkeeping (nonce XOR) from any state.',
-  'note': COMMON_NOTE + 'Shapes listed in the evidence; logs longer than 2 frames are outside. That the emitted nonce is the logged random one is outside (flush path).',
+  'note': COMMON_NOTE + 'Shapes listed in the evidence; logs longer than 2 frames are outside. On the real flush path: the nonce bit on the wire is the random value drawn for the frame and the one logged for it; an ack group with the wrong nonce does not stop retransmission; the transfer window accepts any base only within (base, next id] (any u32).',
  },
  'C16': {
   'text': 'Codec of the real code: round trip for every scalar frame type (all field values), ack frames with 0..2 groups, data frames with datagrams of every encoding class at the threshold lengths (fields symbolic), exact selected encoding size; '
@@ -103,7 +110,7 @@ CLAIMED = {
  },
  'C17': {
   'text': 'Server limit scripts on the real handlers: limits (2,1) with SYN A, SYN B, ACK A, ACK B (many SYNs before any ACK) never exceed either limit; limits (1,1) refuse the second SYN with ServerFull; '
-          'capacity returns after drop() or Disconnect + closed timeout and a new handshake completes.',
+          'capacity returns after drop() or Disconnect + closed timeout and a new handshake completes; a handshake that used up its retry budget is forgotten whatever enable_handshake_errors says, and the next SYN gets a SYN-ACK, not ServerFull.',
   'note': COMMON_NOTE + 'Environment models as for C07; at most 4 tracked addresses, scripts of <= 5 events; larger populations are outside.',
  },
  'C18': {
@@ -117,7 +124,7 @@ CLAIMED = {
  },
  'C20': {
   'text': 'PacketSender accounting scripts: total_size() counts accepted bytes, drops exactly the payload size of a discarded stale TimeSensitive packet (single- and multi-fragment), drops exactly the acknowledged packets for ANY acknowledged id at the 20-bit wrap, never underflows (overflow checks on), and is zero after a full acknowledgement.',
-  'note': COMMON_NOTE + 'Scripts of 2 packets; HalfConnection/Client/RemoteClient accessors forward this counter (read off the code).',
+  'note': COMMON_NOTE + 'Scripts of 2 packets, incl. a 1449-byte one released by a window acknowledgement (payload bytes, not fragment-rounded bytes); through HalfConnection::send_buffer_size() on the flush scripts (thorough). Client/RemoteClient accessors forward this counter (read off the code).',
  },
 }
 
